@@ -100,7 +100,7 @@ def run(rep, tier, rng):
         rep.dist(kind)
         want_items = want
         msg = None
-        if r in ([2], [-2]):
+        if r in ([2], [-2], [-5]):
             msg = "%s: panic or dead process" % kind
         else:
             ops = OPSI if with_idx else [("it", -1)]
